@@ -1054,9 +1054,20 @@ type responseWriter struct {
 	buf *bytes.Buffer
 	// number of body bytes the handler has written so far
 	bodyWritten int
+	// receives header changes the handler makes after the end was written
+	detachedHeader http.Header
 }
 
 func (w *responseWriter) Header() http.Header {
+	if w.endWritten {
+		// The end of the RPC has already been sent to the client. Whatever the handler
+		// still puts into its headers must not reach the client (for example as trailers
+		// that were announced earlier), so it goes into a detached map.
+		if w.detachedHeader == nil {
+			w.detachedHeader = make(http.Header)
+		}
+		return w.detachedHeader
+	}
 	return w.delegate.Header()
 }
 
